@@ -44,7 +44,7 @@ def run(ctx):
     cases, triples_of = [], []
     for i in range(n):
         g = iri_only_graph(rng) if rng.random() < 0.75 else gen.gen_graph(rng)
-        cfg = gen.gen_cfg(rng, g, presentation=False, allow_cap=False, allow_ignore=False)
+        cfg = gen.gen_cfg(rng, g, presentation=False, allow_cap=False, allow_ignore=False, allow_or=True)
         cfg['report'] = 'mixed'
         cfg['disable_comments'] = False
         cfg['inverse'] = True
